@@ -283,6 +283,10 @@ def _type_check_local_reference(expression, ir, errors):
     assert referrent, "Local reference should be non-None after name resolution."
     if isinstance(referrent, ir_data.RuntimeParameter):
         parameter = referrent
+        if parameter.physical_type_alias.which_type != "atomic_type":
+            # _annotate_parameter_type reports "Parameters cannot be arrays."
+            ir_data_utils.builder(expression).type.opaque.CopyFrom(ir_data.OpaqueType())
+            return
         _set_expression_type_from_physical_type_reference(
             expression, parameter.physical_type_alias.atomic_type.reference, ir
         )
